@@ -7,9 +7,11 @@ struct FileMonitor {
   std::set<uint64_t> ever_live;          // numbers that were named by a version / logs that received data
   std::map<uint64_t, int> created;       // number -> class, within the current process incarnation
   string last_listing_text;
+  std::map<uint64_t, size_t> mprog;      // MANIFEST inode -> bytes written so far (journal view)
+  bool mprog_init = false;
   void note_live(const std::vector<SstFile> &files);
   // examine journal entries [*pos, end) ; pins: table numbers certainly referenced by live iterators
-  void scan(const simfs::Journal &j, size_t *pos, const std::vector<const std::set<uint64_t> *> &pins);
+  void scan(const simfs::Journal &j, size_t *pos, const std::vector<const std::set<uint64_t> *> &pins, size_t end = (size_t)-1);
   void after_crash(const string &dir);   // new incarnation: forget "created", keep ever_live
 };
 
